@@ -1,7 +1,95 @@
 import Cherab.Drv.Proto
-open Cherab.Drv
+import Cherab.Model.Inversion
+open Cherab.Drv Cherab.Inversion
 
-/-- C11 driver: not yet implemented (echo) -/
+/-- split a flat list into rows of length `n` -/
+def rowsOf (n : Nat) : Nat → List Float → List (List Float)
+  | 0, _ => []
+  | m + 1, l => l.take n :: rowsOf n m (l.drop n)
+
+def flat (C : List (List Float)) : List Float := C.foldr (· ++ ·) []
+
+def errS : Err → String
+  | .zeroDivision => "ZeroDivisionError"
+  | .valueError => "ValueError"
+
+/-- parse the initial guess: `0 e` (e = the harness's value of `np.exp(-1)`) | `1 v` | `2 k x1..xk`;
+returns (expm1, guess, rest) -/
+def pGuess : List String → Float × Guess Float × List String
+  | "0" :: e :: r => (pF e, .none, r)
+  | "1" :: v :: r => (Float.exp (-1), .scalar (pF v), r)
+  | "2" :: k :: r => let (xs, r') := takeF (pN k) r; (Float.exp (-1), .array xs, r')
+  | r => (Float.exp (-1), .none, r)
+
+def sartOut (r : Except Err (List Float × List Float)) : String :=
+  match r with
+  | .error e => errS e
+  | .ok (x, c) => s!"ok {c.length} {fFs x} {fFs c}"
+
+def step (ts : List String) : String :=
+  match ts with
+  -- sart n m maxit relax tol <guess> W(m*n) b(m)
+  | "sart" :: n :: m :: it :: w :: tol :: r =>
+      let (e1, g, r) := pGuess r
+      let n := pN n; let m := pN m
+      let (Wf, r) := takeF (m * n) r
+      let (b, _) := takeF m r
+      sartOut (sartRun e1 n (rowsOf n m Wf) none b g (pN it) (pF w) (pF tol))
+  -- csart n m maxit relax tol beta <guess> W(m*n) b(m) L(n*n)
+  | "csart" :: n :: m :: it :: w :: tol :: beta :: r =>
+      let (e1, g, r) := pGuess r
+      let n := pN n; let m := pN m
+      let (Wf, r) := takeF (m * n) r
+      let (b, r) := takeF m r
+      let (Lf, _) := takeF (n * n) r
+      sartOut (sartRun e1 n (rowsOf n m Wf) (some (rowsOf n n Lf, pF beta)) b g (pN it) (pF w) (pF tol))
+  -- nnls m n alpha hasL W b [L] xsol(n) rnorm  ->  vmax | C/v | d/v | x | rnorm*vmax
+  | "nnls" :: m :: n :: a :: hasL :: r =>
+      let n := pN n; let m := pN m
+      let (Wf, r) := takeF (m * n) r
+      let (b, r) := takeF m r
+      let (L, r) := if hasL == "1" then let (Lf, r') := takeF (n * n) r; (some (rowsOf n n Lf), r') else (none, r)
+      let (xs, r) := takeF n r
+      let rn := pF (r.headD "0")
+      let W := rowsOf n m Wf
+      let C := stackC n W (pF a) L
+      let d := stackD n b
+      let v := maxOf d
+      let res := nnlsWrap (fun _ _ => (xs, rn)) n W b (pF a) L
+      s!"{fF v} {fFs (flat (divMat v C))} {fFs (divVec v d)} {fFs res.1} {fF res.2}"
+  -- lstsq m n alpha hasL W b [L] -> C | d   (as handed to the solver)
+  | "lstsq" :: m :: n :: a :: hasL :: r =>
+      let n := pN n; let m := pN m
+      let (Wf, r) := takeF (m * n) r
+      let (b, r) := takeF m r
+      let L := if hasL == "1" then some (rowsOf n n (takeF (n * n) r).1) else none
+      let res := lstsqWrap (fun C d => (C, d)) n (rowsOf n m Wf) b (pF a) L
+      s!"{fFs (flat res.1)} {fFs res.2}"
+  -- svd m n W b P(n*m) -> P b
+  | "svd" :: m :: n :: r =>
+      let n := pN n; let m := pN m
+      let (Wf, r) := takeF (m * n) r
+      let (b, r) := takeF m r
+      let (Pf, _) := takeF (n * m) r
+      fFs (svdWrap (fun _ => rowsOf m n Pf) (rowsOf n m Wf) b)
+  -- kkt rows n C d x -> g | x.g
+  | "kkt" :: rows :: n :: r =>
+      let n := pN n; let rows := pN rows
+      let (Cf, r) := takeF (rows * n) r
+      let (d, r) := takeF rows r
+      let (x, _) := takeF n r
+      let k := kktResidual n (rowsOf n rows Cf) d x
+      s!"{fFs k.1} {fF k.2}"
+  -- obj m n alpha W b L x -> |Wx-b|^2 + alpha^2 |Lx|^2
+  | "obj" :: m :: n :: a :: r =>
+      let n := pN n; let m := pN m
+      let (Wf, r) := takeF (m * n) r
+      let (b, r) := takeF m r
+      let (Lf, r) := takeF (n * n) r
+      let (x, _) := takeF n r
+      fF (objective (rowsOf n m Wf) (rowsOf n n Lf) (pF a) b x)
+  | _ => "bad-op"
+
 def main : IO UInt32 := do
-  loop (stateless fun ts => " ".intercalate ts) (← IO.getStdin) (← IO.getStdout) ()
+  loop (stateless step) (← IO.getStdin) (← IO.getStdout) ()
   return 0
